@@ -1,0 +1,182 @@
+//! Event tracing for the thread pool, compiled only with `--cfg humphrey_verif`.
+//!
+//! The pool and the recovery thread report what they do through [`pool_event`]. Nothing happens unless a
+//! sink has been installed with [`install_sink`]. The sink is called while a global mutex is held, so the
+//! order in which the sink sees the events is a total order. Acquisitions (lock acquired, message received,
+//! thread joined) are reported *after* the real operation and releases, sends and spawns *before* it, so
+//! that order is a legal linearisation of what the threads did.
+//!
+//! The value returned by the sink asks for a perturbation of the schedule after the event has been
+//! recorded and the global mutex released: `0` nothing, `1` `yield_now`, `n > 1` sleep for `n - 1` µs.
+
+use crate::thread::pool::Message;
+
+use std::sync::mpsc::{Receiver, RecvError};
+use std::sync::{Arc, Mutex, MutexGuard, PoisonError};
+
+/// What a worker's `recv()` returned.
+#[derive(Clone, Copy, Debug, PartialEq, Eq)]
+pub enum Received {
+    /// `Message::Function`
+    Task,
+    /// `Message::Shutdown`
+    Shutdown,
+    /// `Err(RecvError)`: the queue is empty and the `Sender` is gone.
+    Disconnected,
+}
+
+/// One observable step of the pool, of a worker (`usize` = worker id) or of the recovery thread.
+#[derive(Clone, Copy, Debug, PartialEq, Eq)]
+pub enum PoolEvent {
+    /// `start()` entered with this thread count (before any thread is spawned).
+    StartBegin(usize),
+    /// `start()` is about to return.
+    StartEnd,
+    /// `execute()` is about to send the task.
+    Submit,
+    /// `stop()` entered (before the recovery thread is detached and `Shutdown` is sent).
+    StopBegin,
+    /// `stop()` is about to return.
+    StopEnd,
+    /// The worker is about to call `rx.lock()`.
+    LockRequest(usize),
+    /// The worker holds the receiver's mutex.
+    LockAcquired(usize),
+    /// The worker's `recv()` returned.
+    RecvReturned(usize, Received),
+    /// The worker is about to release the receiver's mutex.
+    GuardRelease(usize),
+    /// The worker is about to call the task.
+    Run(usize),
+    /// The task returned normally.
+    TaskFinished(usize),
+    /// The task is unwinding.
+    TaskPanicked(usize),
+    /// The worker's `PanicMarker` is about to send the worker's id to the recovery thread.
+    MarkerSend(usize),
+    /// The worker left its loop normally and is about to end.
+    WorkerExit(usize),
+    /// The recovery thread received this id and holds the `threads` mutex.
+    RecoveryRecv(usize),
+    /// The recovery thread has joined the old thread of this id (or found no handle to join).
+    RecoveryJoined(usize),
+    /// The recovery thread is about to spawn the replacement for this id.
+    RecoveryRespawn(usize),
+    /// `Drop for ThreadPool` entered.
+    DropBegin,
+    /// The pool still owns the recovery thread's handle and is about to dispose of it.
+    DropRecoveryHandle,
+    /// The recovery thread's handle has been dealt with (joined, detached, or there was none).
+    DropRecoveryDone,
+    /// The handle of this worker is about to be detached (the `threads` mutex is held).
+    DropThread(usize),
+    /// `Drop for ThreadPool` is about to return; the fields, among them the task `Sender`, go next.
+    DropEnd,
+}
+
+/// Receives every event; the result asks for a perturbation (see the module documentation).
+pub type Sink = Box<dyn Fn(PoolEvent) -> u32 + Send + Sync>;
+
+static SINK: Mutex<Option<Sink>> = Mutex::new(None);
+
+/// Installs the sink, replacing any previous one.
+pub fn install_sink(sink: Sink) {
+    *SINK.lock().unwrap_or_else(PoisonError::into_inner) = Some(sink);
+}
+
+/// Removes the sink; events are dropped again.
+pub fn remove_sink() {
+    *SINK.lock().unwrap_or_else(PoisonError::into_inner) = None;
+}
+
+/// Reports an event. No-op unless a sink is installed. Never panics.
+pub fn pool_event(ev: PoolEvent) {
+    let hint = {
+        let guard = SINK.lock().unwrap_or_else(PoisonError::into_inner);
+        match &*guard {
+            Some(sink) => sink(ev),
+            None => return,
+        }
+    };
+    match hint {
+        0 => {}
+        1 => std::thread::yield_now(),
+        n => std::thread::sleep(std::time::Duration::from_micros((n - 1) as u64)),
+    }
+}
+
+/// Stands in for the shared `Arc<Mutex<Receiver<Message>>>` inside a worker (by shadowing `rx`) so that the
+/// worker's unchanged `rx.lock()` / `res.recv()` / guard drop are reported.
+pub struct TracedRx {
+    id: usize,
+    inner: Arc<Mutex<Receiver<Message>>>,
+}
+
+/// The guard returned by [`TracedRx::lock`].
+pub struct TracedGuard<'a> {
+    id: usize,
+    inner: MutexGuard<'a, Receiver<Message>>,
+}
+
+impl TracedRx {
+    /// Wraps the receiver of worker `id`.
+    pub fn new(id: usize, inner: Arc<Mutex<Receiver<Message>>>) -> Self {
+        Self { id, inner }
+    }
+
+    /// `Mutex::lock`, reported before (request) and after (acquired).
+    #[allow(clippy::type_complexity)]
+    pub fn lock(
+        &self,
+    ) -> Result<TracedGuard<'_>, PoisonError<MutexGuard<'_, Receiver<Message>>>> {
+        pool_event(PoolEvent::LockRequest(self.id));
+        let inner = self.inner.lock()?;
+        pool_event(PoolEvent::LockAcquired(self.id));
+        Ok(TracedGuard { id: self.id, inner })
+    }
+}
+
+impl TracedGuard<'_> {
+    /// `Receiver::recv`, reported after it returned.
+    pub fn recv(&self) -> Result<Message, RecvError> {
+        let res = self.inner.recv();
+        pool_event(PoolEvent::RecvReturned(
+            self.id,
+            match &res {
+                Ok(Message::Function(_, _)) => Received::Task,
+                Ok(Message::Shutdown) => Received::Shutdown,
+                Err(_) => Received::Disconnected,
+            },
+        ));
+        res
+    }
+}
+
+impl Drop for TracedGuard<'_> {
+    fn drop(&mut self) {
+        // reported before `inner` (the real guard) is dropped
+        pool_event(PoolEvent::GuardRelease(self.id));
+    }
+}
+
+/// Lives around the call of a task: reports `Run` when created and `TaskFinished` or `TaskPanicked`
+/// when the call has returned or is unwinding.
+pub struct RunGuard(usize);
+
+impl RunGuard {
+    /// Reports that worker `id` is about to call a task.
+    pub fn new(id: usize) -> Self {
+        pool_event(PoolEvent::Run(id));
+        Self(id)
+    }
+}
+
+impl Drop for RunGuard {
+    fn drop(&mut self) {
+        if std::thread::panicking() {
+            pool_event(PoolEvent::TaskPanicked(self.0));
+        } else {
+            pool_event(PoolEvent::TaskFinished(self.0));
+        }
+    }
+}
